@@ -128,11 +128,60 @@ LostCase(t, v, x, off, how, table) ==
   /\ act' = [name |-> "lost", type |-> t, variant |-> v, src |-> x, off |-> off, how |-> how, table |-> table,
              effect |-> AllowedLost(t, v, x, AfterGoodbyes(table, off))]
 
+(***************************************************************************)
+(* The history "first contact, several workers at once".  A router runs    *)
+(* one frame worker per CPU, so pings that arrive back to back are worked   *)
+(* on at the same moment.  The victim has no stored record and no session   *)
+(* object of router X - it never heard of X, or it was restarted without    *)
+(* its state file (then it knows nobody) - when a burst arrives: one or two *)
+(* genuine pings of X (the second one newer), each in 1..3 verbatim copies  *)
+(* (an on-path attacker sends every frame twice; copies may come over       *)
+(* different links), and possibly a genuine announcement of another peer    *)
+(* `hop` that travelled through X, so that one of its hop records, signed   *)
+(* by X, introduces X as well.  The rule is the same, whatever the workers  *)
+(* do at the same moment: every DISTINCT authentic ping may have its effect *)
+(* once; the other copies are replays and change nothing.  Afterwards every *)
+(* ping of the burst, delivered again, is a replay (event "atonce-replay"   *)
+(* of the trace specification).                                             *)
+(***************************************************************************)
+FirstTypes == {"hello-req", "pong-req", "err-generic", "err-nokeys", "disconnect-down", "disconnect-list", "announce"}
+Unknowns == {"never-heard", "storage-lost"}
+(* the effect one ping p = [type, src, first] may have (first: no stored record of src before the burst) *)
+AllowedOnce(p, table) == IF p.first THEN [Effect(p.type, p.src, table) EXCEPT !.stored = {p.src}] ELSE Effect(p.type, p.src, table)
+(* ... and a burst of distinct authentic pings; `hops`: routers introduced by genuine hop records *)
+AllowedAtOnce(pings, hops, table) ==
+  LET A == {AllowedOnce(pings[i], table) : i \in DOMAIN pings}
+  IN [ keys    |-> UNION {a.keys : a \in A},
+       mtu     |-> UNION {a.mtu : a \in A},
+       removed |-> UNION {a.removed : a \in A},
+       mayadd  |-> \E a \in A : a.mayadd,
+       conn    |-> \E a \in A : a.conn,
+       info    |-> UNION {a.info : a \in A},
+       offline |-> UNION {a.offline : a \in A},
+       stored  |-> UNION {a.stored : a \in A} \cup hops ]
+AtOnceTable == PeerRoutes \cup {[dst |-> 4, nh |-> 2, path |-> <<0, 2, 4>>]}
+
+AtOnceCase(t1, k1, t2, k2, x, how, hop) ==
+  /\ phase = "start" /\ phase' = "done"
+  /\ (how = "never-heard" => x = 5)                        \* everybody else is known then
+  /\ ("announce" \in {t1, t2} => x \in Peers)
+  /\ (t2 = "none" <=> k2 = 0)
+  /\ hop \in {0} \cup (Peers \ {x})
+  /\ k1 + k2 + (IF hop = 0 THEN 0 ELSE 1) >= 2             \* a burst
+  /\ LET px == <<[type |-> t1, src |-> x, first |-> TRUE]>> \o
+               (IF t2 = "none" THEN <<>> ELSE <<[type |-> t2, src |-> x, first |-> TRUE]>>)
+         ph == IF hop = 0 THEN <<>> ELSE <<[type |-> "announce", src |-> hop, first |-> (how = "storage-lost")]>>
+         relays == IF hop = 0 THEN {} ELSE {x} \cup (Peers \ {hop})    \* the routers the hop records may name
+     IN act' = [name |-> "atonce", t1 |-> t1, k1 |-> k1, t2 |-> t2, k2 |-> k2, src |-> x, how |-> how, hop |-> hop,
+                table |-> AtOnceTable, effect |-> AllowedAtOnce(px \o ph, relays, AtOnceTable)]
+
 Tables == {T \in SUBSET Catalogue : Cardinality(T) <= 4 /\ \A p \in Peers : [dst |-> p, nh |-> p, path |-> <<0, p>>] \in T \/ Cardinality(T) <= 2}
 Next == phase = "start" /\
           \/ \E t \in Types, v \in Variants, x \in Routers, table \in Tables : Case(t, v, x, table)
           \/ \E t \in Types, v \in LostVariants, x \in Known, off \in Offs, how \in Hows, table \in LostTables :
                 LostCase(t, v, x, off, how, table)
+          \/ \E t1 \in FirstTypes, k1 \in 1..3, t2 \in FirstTypes \cup {"none"}, k2 \in 0..3, x \in Routers, how \in Unknowns, hop \in 0..3 :
+                AtOnceCase(t1, k1, t2, k2, x, how, hop)
 Spec == Init /\ [][Next]_vars
 
 (* Properties (C07). *)
@@ -146,6 +195,15 @@ DisconnectComplete == act.name = "case" /\ act.type \in {"disconnect-down", "dis
 LostOnlyAuthenticChanges == act.name = "lost" /\ ~AuthenticLost(act.variant) => act.effect = NoEffect
 LostOfflineConfined == act.name = "lost" => act.effect.offline \subseteq {act.src}     \* never the flag of another router
 LostDisconnectConfined == act.name = "lost" => \A r \in act.effect.removed : Mentions(r, act.src)
+
+(* a burst of pings of X at first contact: nobody else's keys, MTU, flag or routes; records only of X and of the   *)
+(* routers genuine hop records name                                                                              *)
+AtOnceConfined == act.name = "atonce" =>
+                    /\ act.effect.keys \subseteq {act.src} /\ act.effect.mtu \subseteq {act.src}
+                    /\ act.effect.offline \subseteq {act.src}
+                    /\ \A r \in act.effect.removed : Mentions(r, act.src)
+                    /\ act.effect.info \subseteq {act.src} \cup (IF act.hop = 0 THEN {} ELSE {act.hop})
+                    /\ (act.hop = 0 => act.effect.stored \subseteq {act.src})
 
 DumpEdge == PrintT("EDGE " \o ToJson(phase) \o "\t" \o ToJson(act') \o "\t" \o ToJson(<<phase', act'>>))
 =============================================================================
